@@ -257,6 +257,12 @@ static bool parse_op(std::vector<std::string> t, Op &op)
   if (op.kind == "name" && t.size() == 2) return vh::from_hex(t[1], op.s1);
   if (op.kind == "end" && t.size() == 2) return vh::parse_i(64, t[1], op.n);
   if ((op.kind == "flush" || op.kind == "isrec") && t.size() == 1) return true;
+  // a processor attached to the provider while the span is in flight: it must see nothing of this span
+  if (op.kind == "addproc" && t.size() == 2 && op.thread < 0 && (t[1] == "s" || t[1] == "b"))
+  {
+    op.s1 = t[1];
+    return true;
+  }
   if ((op.kind == "par" || op.kind == "seq") && t.size() == 1 && op.thread < 0) return true;
 #if OPENTELEMETRY_ABI_VERSION_NO >= 2
   if ((op.kind == "link" || op.kind == "links") && t.size() == 2)
@@ -400,7 +406,9 @@ static std::string handle(const std::vector<std::string> &toks)
     links.reset();
   }
   std::vector<std::string> rec;
-  const bool has_batch = procs.find('b') != std::string::npos;
+  std::string late_kinds;  // processors added by `addproc`, in order
+  const bool has_batch = procs.find('b') != std::string::npos ||
+                         std::any_of(ops.begin(), ops.end(), [](const Op &o) { return o.kind == "addproc" && o.s1 == "b"; });
   auto flush           = [&]() {
     // let a just-started / just-finished batch worker reach its wait, so that ForceFlush's wake-up is not lost
     if (has_batch) vh::wait_parked();
@@ -445,6 +453,22 @@ static std::string handle(const std::vector<std::string> &toks)
       span->End(eo);
     }
     else if (op.kind == "flush") flush();
+    else if (op.kind == "addproc")
+    {
+      auto log = std::make_shared<Log>();
+      std::unique_ptr<trace_sdk::SpanExporter> exp(new LogExporter(log, &canon));
+      std::unique_ptr<trace_sdk::SpanProcessor> inner;
+      if (op.s1 == "s") inner.reset(new trace_sdk::SimpleSpanProcessor(std::move(exp)));
+      else
+      {
+        trace_sdk::BatchSpanProcessorOptions o;
+        o.schedule_delay_millis = std::chrono::milliseconds(2000);
+        inner.reset(new trace_sdk::BatchSpanProcessor(std::move(exp), o));
+      }
+      provider->AddProcessor(std::unique_ptr<trace_sdk::SpanProcessor>(new Counting(std::move(inner), log)));
+      logs.push_back(log);
+      late_kinds.push_back(op.s1[0]);
+    }
     else if (op.kind == "isrec") rec.push_back(span->IsRecording() ? "1" : "0");
 #if OPENTELEMETRY_ABI_VERSION_NO >= 2
     else if (op.kind == "link" || op.kind == "links")
@@ -499,7 +523,7 @@ static std::string handle(const std::vector<std::string> &toks)
   std::string out = "rec=[" + vh::join(rec, ",") + "]";
   for (size_t i = 0; i < logs.size(); i++)
   {
-    out += " | p" + std::to_string(i) + ":" + procs[i] + ":start=" + std::to_string(logs[i]->on_start) +
+    out += " | p" + std::to_string(i) + ":" + (i < procs.size() ? procs[i] : late_kinds[i - procs.size()]) + ":start=" + std::to_string(logs[i]->on_start) +
            ":end=" + std::to_string(logs[i]->on_end) + ":x=[";
     for (size_t b = 0; b < logs[i]->batches.size(); b++)
     {
